@@ -95,6 +95,14 @@ func vfHostileClient(plan *vfCliPlan, log *vfCliLog) func(ctx context.Context, a
 		go func() {
 			select {
 			case <-ctx.Done():
+				if plan.FailKind == "garbagereading" {
+					// this one takes a while to die (a process that handles SIGTERM late)
+					select {
+					case <-time.After(20 * time.Millisecond):
+					case <-dead:
+						return
+					}
+				}
 				_ = in.Close()
 				_ = out.Close()
 			case <-dead:
